@@ -266,10 +266,62 @@ class TlcResult:
         self.coverage = {}       # action -> (taken, generated)
         self.wall = 0.0
         self.traces = 0          # behaviours generated (simulation)
+        self.cached = False      # the output of an identical generation run was reused (build/tlccache)
 
     @property
     def transitions(self):
         return max(self.generated - 1, 0)
+
+
+def _tlc_cache_key(module, cfg, cmd, env):
+    h = hashlib.sha256()
+    for f in sorted(glob.glob(os.path.join(SPEC, "*.tla"))):
+        h.update(os.path.basename(f).encode()); h.update(open(f, "rb").read())
+    h.update(open(os.path.join(SPEC, cfg), "rb").read())
+    args = [a for i, a in enumerate(cmd) if a != cfg and not (i > 0 and cmd[i - 1] in ("-metadir", "-config"))]
+    h.update(repr(args).encode())
+    h.update(repr(sorted((k, v) for k, v in env.items() if k != "OUT")).encode())
+    return h.hexdigest()[:32]
+
+
+def _tlc_cache_get(key, out_file):
+    d = os.path.join(BUILD, "tlccache", key)
+    try:
+        if not os.path.exists(os.path.join(d, ".done")) or time.time() - os.path.getmtime(os.path.join(d, ".done")) > 3 * 3600:
+            return None
+        meta = json.load(open(os.path.join(d, "meta.json")))
+        shutil.copyfile(os.path.join(d, "out"), out_file)
+        return meta["rc"], open(os.path.join(d, "stdout")).read(), meta["wall"]
+    except Exception:
+        return None
+
+
+def _tlc_cache_put(key, out_file, rc, out, dt):
+    try:
+        if os.path.getsize(out_file) > 400 * 1024 * 1024:
+            return
+        root = os.path.join(BUILD, "tlccache")
+        os.makedirs(root, exist_ok=True)
+        for old in glob.glob(os.path.join(root, "*")):          # entries are short-lived
+            try:
+                if time.time() - os.path.getmtime(old) > 3 * 3600:
+                    shutil.rmtree(old, ignore_errors=True)
+            except OSError:
+                pass
+        tmp = os.path.join(root, ".%s.%d" % (key, os.getpid()))
+        shutil.rmtree(tmp, ignore_errors=True)
+        os.makedirs(tmp)
+        shutil.copyfile(out_file, os.path.join(tmp, "out"))
+        open(os.path.join(tmp, "stdout"), "w").write(out)
+        json.dump({"rc": rc, "wall": dt}, open(os.path.join(tmp, "meta.json"), "w"))
+        open(os.path.join(tmp, ".done"), "w").write("ok")
+        d = os.path.join(root, key)
+        if os.path.exists(d):
+            shutil.rmtree(tmp, ignore_errors=True)
+        else:
+            os.rename(tmp, d)
+    except Exception:
+        pass
 
 
 def tlc(module, cfg, workers=None, simulate=None, depth=None, seed=None, env=None, timeout=600,
@@ -306,14 +358,26 @@ def tlc(module, cfg, workers=None, simulate=None, depth=None, seed=None, env=Non
         if os.path.exists(out_file):
             os.remove(out_file)
     r = TlcResult()
-    rc, out, dt = sh_watch(cmd, timeout=timeout, cwd=SPEC, env=e)
-    if rc == 125:          # a stalled TLC is a tool failure: one more attempt before giving up
-        shutil.rmtree(meta, ignore_errors=True)
-        if out_file and os.path.exists(out_file):
-            os.remove(out_file)
-        log("[tlc] %s/%s stalled, retrying" % (module, cfg))
+    # Generation runs (TLC writes the behaviours it explores to out_file) depend on the specification, the configuration
+    # and the arguments only - not on /repo - and several checks ask for the very same run (the GdlRef families feed
+    # C02..C06): their output is kept under build/tlccache, keyed by the content of every module, of the configuration and
+    # by the arguments, and reused while it is fresh.  Trace validation runs (env TRACE) are never cached.
+    ckey = _tlc_cache_key(module, cfg, cmd, e) if (out_file and not (env and "TRACE" in env) and os.environ.get("VERIF_NO_TLC_CACHE") != "1") else None
+    hit = _tlc_cache_get(ckey, out_file) if ckey else None
+    if hit:
+        rc, out, dt = hit
+        r.cached = True
+    else:
         rc, out, dt = sh_watch(cmd, timeout=timeout, cwd=SPEC, env=e)
-    shutil.rmtree(meta, ignore_errors=True)
+        if rc == 125:          # a stalled TLC is a tool failure: one more attempt before giving up
+            shutil.rmtree(meta, ignore_errors=True)
+            if out_file and os.path.exists(out_file):
+                os.remove(out_file)
+            log("[tlc] %s/%s stalled, retrying" % (module, cfg))
+            rc, out, dt = sh_watch(cmd, timeout=timeout, cwd=SPEC, env=e)
+        shutil.rmtree(meta, ignore_errors=True)
+        if ckey and rc == 0 and "is violated" not in out and out_file and os.path.exists(out_file):
+            _tlc_cache_put(ckey, out_file, rc, out, dt)
     r.rc, r.out, r.wall = rc, out, dt
     m = None
     for m in re.finditer(r"(\d+) states generated, (\d+) distinct states found", out):
@@ -433,7 +497,7 @@ class Check:
         self.states += r.states
         self.transitions += r.transitions
         self.tlc_runs.append({"run": name, "distinct_states": r.states, "states_generated": r.generated,
-                              "depth": r.depth, "wall_s": round(r.wall, 1), "emitted": len(r.emitted),
+                              "depth": r.depth, "wall_s": round(r.wall, 1), "emitted": len(r.emitted), "reused_output_of_identical_run": bool(getattr(r, "cached", False)),
                               "coverage": {k: list(v) for k, v in sorted(r.coverage.items())}})
         for a in need_actions:
             if a not in r.coverage or r.coverage[a][0] == 0:
